@@ -37,7 +37,10 @@ struct HistEngine : Engine {
 	}
 
 	// ------------------------------------------------------------------ planner
-	struct PSlot { bool live = false, parsed = false, exported = false, stale = false; int doc = 0; };
+	struct PSlot { bool live = false, parsed = false, exported = false, stale = false, opml = false, spent = false; int doc = 0; };
+	// An engine created with EXT_PARSE_OPML replaces its text by the converted text at its first parse; what a second parse of
+	// that engine means is not stated anywhere, so such an engine gets one parse/conversion only.
+	static bool parses(const std::string & k) { return k == "E_CONVERT" || k == "E_TO_DATA" || k == "E_PARSE" || k == "E_PARSE_SUB"; }
 
 	Json plan(uint64_t seed, const std::string & tier) override {
 		Rng kn = substream(seed, "knobs"), w = substream(seed, "workload"), en = substream(seed, "env");
@@ -116,8 +119,9 @@ struct HistEngine : Engine {
 				if (!S.live) {
 					o["k"] = "E_CREATE"; o["doc"] = (int64_t)w.below((uint64_t)ndocs); o["ext"] = (int64_t)exts[w.below(exts.size())]; o["with"] = w.chance(1, 2) ? "string" : "dstring";
 					if ((int)o.geti("doc") == opml_doc) o["ext"] = (int64_t)((unsigned long)o.geti("ext") | X_PARSE_OPML);
-					S = PSlot(); S.live = true; S.doc = (int)o.geti("doc");
-				} else if (j < 30) { o["k"] = "E_CONVERT"; o["fmt"] = fmt_for(); o["env"] = gen_env(en); S.parsed = true; S.exported = true; S.stale = false; }
+					S = PSlot(); S.live = true; S.doc = (int)o.geti("doc"); S.opml = ((int)o.geti("doc") == opml_doc);
+				} else if (S.opml && S.spent && j < 60) { continue; }
+				else if (j < 30) { o["k"] = "E_CONVERT"; o["fmt"] = fmt_for(); o["env"] = gen_env(en); S.parsed = true; S.exported = true; S.stale = false; }
 				else if (j < 38) {
 					o["k"] = "E_TO_DATA"; o["fmt"] = fmt_for(); o["env"] = gen_env(en);
 					if (use_pkg && w.chance(1, 2)) { static const int pf[] = {FMT_EPUB, FMT_ODT, FMT_TEXTBUNDLE_COMPRESSED, FMT_ITMZ}; o["fmt"] = pf[w.below(4)]; }
@@ -139,6 +143,7 @@ struct HistEngine : Engine {
 				}
 				else if (j < 92) { o["k"] = "E_RESET"; S.parsed = false; S.exported = false; S.stale = false; }
 				else { o["k"] = "E_FREE"; S = PSlot(); }
+				if (S.live && S.opml && o.has("k") && parses(o.gets("k"))) S.spent = true;
 			} else if (k < 88 && use_noise) {
 				unsigned j = (unsigned)w.below(7);
 				o["doc"] = (int64_t)w.below((uint64_t)ndocs);
@@ -174,9 +179,10 @@ struct HistEngine : Engine {
 			std::string k = o.gets("k");
 			int s = (int)o.geti("slot") % 3;
 			PSlot & S = sl[s];
-			if (k == "E_CREATE") { if (S.live) continue; S = PSlot(); S.live = true; }
+			if (k == "E_CREATE") { if (S.live) continue; S = PSlot(); S.live = true; S.opml = ((unsigned long)o.geti("ext") & X_PARSE_OPML) != 0; }
 			else if (k.compare(0, 2, "E_") == 0) {
 				if (!S.live) continue;
+				if (S.opml && parses(k)) { if (S.spent) continue; S.spent = true; }
 				if (k == "E_CONVERT" || k == "E_TO_DATA") { S.parsed = S.exported = true; S.stale = false; }
 				else if (k == "E_PARSE") { S.parsed = true; S.exported = false; S.stale = false; }
 				else if (k == "E_EXPORT") { if (!(S.parsed && !S.exported && !S.stale)) continue; S.exported = true; }
